@@ -155,6 +155,11 @@ Lemma arch_checked_is_used :
   all_in ["dest"; "dir"] gen_write_paths_untar = true.
 Proof. repeat split; reflexivity. Qed.
 
+(** The destination is a path, never a pattern: no glob / match call in
+    package ziputil nor in dock's extraction functions. *)
+Lemma arch_no_pattern_matching : gen_unzip_glob_calls = [].
+Proof. reflexivity. Qed.
+
 (** The containment test comes before anything that writes. *)
 Lemma arch_unzip_check_first : gen_check_first_unzip = true.
 Proof. reflexivity. Qed.
